@@ -15,14 +15,16 @@ CONTRACT = ("table satisfies the generator contract: sorted by (from, terminal),
 STREAM = "lookahead tokens: skip-token types 1..=4 never occur; EOI only as trailing padding"
 
 TABLE_GRAMMARS = {"anbn": "ll_anbn", "k2": "ll_k2", "k3": "ll_k3", "unite": "ll_unite_order", "nullable": "ll_nullable_tail", "expr": "ll_expr",
-                  "leftfactor": "ll_leftfactor", "k3_nt": "ll_k3_nt", "list_k2": "ll_list_k2"}
+                  "leftfactor": "ll_leftfactor", "k3_nt": "ll_k3_nt", "list_k2": "ll_list_k2", "k3_short": "ll_k3_short"}
 TAB_HARNESSES = [H(M + "c08_tab_" + k, "every lookahead automaton that the freshly built parol generates for grammars/%s.par (concrete table), 4 symbolic tokens (EOI or 5..=16)" % g,
                    F, stubs=STUBS, assumes=[STREAM], timeout=1800) for k, g in TABLE_GRAMMARS.items()]
 SYM_HARNESSES = [
     H(M + "c08_eval_symbolic_table_small", "symbolic table: <= 4 transitions, <= 4 states, automaton k <= 2, stream k <= 3, 4 symbolic u16 tokens",
-      F, stubs=STUBS, assumes=[CONTRACT, STREAM], timeout=3600, tiers=("quick",)),
+      F, stubs=STUBS, assumes=[CONTRACT, STREAM], timeout=3600),
+    H(M + "c08_eval_symbolic_table_k3", "symbolic table: <= 3 transitions, <= 4 states, automaton k <= 3, stream k <= 3, 4 symbolic u16 tokens",
+      F, stubs=STUBS, assumes=[CONTRACT, STREAM], timeout=3600),
     H(M + "c08_eval_symbolic_table", "symbolic table: <= 6 transitions, <= 5 states, automaton k <= 3, stream k <= 3, 4 symbolic u16 tokens",
-      F, stubs=STUBS, assumes=[CONTRACT, STREAM], timeout=5400, tiers=("thorough",)),
+      F, stubs=STUBS, assumes=[CONTRACT, STREAM], timeout=2400, tiers=("thorough",)),
     H(M + "c08_twin_must_fail", "vacuity twin", F, expect="fail", stubs=STUBS),
 ]
 
@@ -101,11 +103,17 @@ def native_eval(case):
 def decode_tables(vecs):
     """c08_tab_*: one [u16; 4] per automaton, in order; the failing automaton is not named by the
     values, so every (automaton, tokens) pair is replayed natively."""
-    out = []
+    out, single = [], []
     for v in vecs:
         b = v["bytes"]
         if len(b) == 8:
             out.append([_le(b[i:i + 2]) for i in range(0, 8, 2)])
+        elif len(b) == 2:
+            # Kani may report the [u16; 4] element-wise
+            single.append(_le(b))
+            if len(single) == 4:
+                out.append(single)
+                single = []
     return out
 
 
@@ -161,7 +169,7 @@ def main():
         run.cov[k] = round(cov_a[k] + run.cov[k], 2) if isinstance(run.cov[k], float) or isinstance(cov_a[k], float) else cov_a[k] + run.cov[k]
     run.cov["samples"] = (cov_a["samples"] + run.cov["samples"])[:8]
     run.cov["generated_tables"] = info
-    run.assume("bounded claim: (a) every automaton generated for the 9 committed corpus grammars, all buffers of 4 tokens; (b) every automaton with <= 6 transitions / <= 5 states / k <= 3 that satisfies the generator contract; larger automata are outside the claim",
+    run.assume("bounded claim: (a) every automaton generated for the 10 committed corpus grammars, all buffers of 4 tokens; (b) every automaton with <= 6 transitions / <= 5 states / k <= 3 that satisfies the generator contract; larger automata are outside the claim",
                "counterexamples are replayed natively: real LookaheadDFA::eval on a real TokenStream with a scnr2 scanner (/verif/replay/eval_replay)")
     return run.finish()
 
